@@ -105,7 +105,7 @@ static bool verify_hash(HashCase& hc, Rng& rng, const std::vector<type_id>& ids,
             return hfail(hc, "registered-id-rejected", "hash_type_id of a registered id " + hex(id), ids, "an index", o.str());
         if (idx >= length)
             return hfail(hc, "index-out-of-range", "hash_type_id(" + hex(id) + ")", ids, "index < hash_length " + std::to_string(length), std::to_string(idx));
-        if (via_update && idx >= vsize)
+        if (via_update && !caps.map && idx >= vsize) // (a v-table pointer map is keyed by id, not by index)
             return hfail(hc, "index-beyond-vptr-vector", "hash_type_id(" + hex(id) + ")", ids, "index < vptrs.size() " + std::to_string(vsize), std::to_string(idx));
         if (caps.checked && idx >= csize)
             return hfail(hc, "index-beyond-control", "hash_type_id(" + hex(id) + ")", ids, "index < control.size() " + std::to_string(csize), std::to_string(idx));
